@@ -121,6 +121,25 @@ func (s *c19Seen) list(below int) []int {
 	return res
 }
 
+// c19Listen: a loopback port chosen by the kernel. On a machine where many checks open many short connections the
+// ephemeral ports can run out for a moment (TIME-WAIT); that is no property of heimdall, so the call is repeated.
+func c19Listen() (net.Listener, error) {
+	var (
+		ln  net.Listener
+		err error
+	)
+
+	for attempt := 0; attempt < 150; attempt++ {
+		if ln, err = net.Listen("tcp", "127.0.0.1:0"); err == nil {
+			return ln, nil
+		}
+
+		time.Sleep(200 * time.Millisecond)
+	}
+
+	return nil, err
+}
+
 func c19WaitFor(cond func() bool) bool {
 	deadline := time.Now().Add(c19WaitLimit)
 	for !cond() {
@@ -414,7 +433,7 @@ func c19Serve(c map[string]any) (any, error) {
 		return nil, errors.New("loaders: environment: " + c19Env.err.Error())
 	}
 
-	ln, err := net.Listen("tcp", "127.0.0.1:0")
+	ln, err := c19Listen()
 	if err != nil {
 		return nil, err
 	}
